@@ -123,6 +123,7 @@ type Run struct {
 	dumpDir      string
 	dumpEvery    int
 	dumpFiles    []string
+	dumpMax      int
 	dumpResults  []string
 	deadline     time.Time
 }
@@ -327,7 +328,7 @@ func (r *Run) execute(jobs []*Job, nworkers int) error {
 				return
 			}
 			if r.dumpEvery > 0 {
-				s.dump = &queryDump{every: r.dumpEvery, dir: r.dumpDir, max: 40, tag: id}
+				s.dump = &queryDump{every: r.dumpEvery, dir: r.dumpDir, max: r.dumpMax, tag: id}
 			}
 			w := &Worker{id: id, prog: r.prog, tctx: tctx, solver: s, run: r}
 			for {
